@@ -683,7 +683,8 @@ func (c *cluster) onDelivery(n *onode, ev *pb.CommitEvent) {
 					// the batch carries the (fake) time at which its leader generated it
 					// (delivered to that node before the second batch was generated: a batch cut while the first block was
 					// still an uncommitted entry of a deposed leader is what the new leader's hold-off exists to prevent)
-					if at, ok := x.reported[prev]; x.alive && (!ok || at >= b.ts) && x.deliveredAt[prev] != 0 && x.deliveredAt[prev] <= b.ts {
+					// (whether that node is still up when the second block is delivered does not matter)
+					if at, ok := x.reported[prev]; (!ok || at >= b.ts) && x.deliveredAt[prev] != 0 && x.deliveredAt[prev] <= b.ts {
 						// known family: a (new) leader batches a transaction of a block that consensus has
 						// delivered but whose execution has not been reported to its pool yet
 						discr = "first-block-not-yet-reported-to-every-pool"
@@ -707,7 +708,11 @@ func (c *cluster) onDelivery(n *onode, ev *pb.CommitEvent) {
 						}
 					}
 				}
-				c.vio("tx-in-two-blocks", discr, "transaction %s is included in delivered blocks %d and %d", h[:10], prev, b.height)
+				ctx := fmt.Sprintf("second batch generated at t=%d;", b.ts)
+				for _, x := range c.nodes {
+					ctx += fmt.Sprintf(" n%d.%d alive=%v first-delivered=%d reported=%d;", x.id, x.inc, x.alive, x.deliveredAt[prev], x.reported[prev])
+				}
+				c.vio("tx-in-two-blocks", discr, "transaction %s is included in delivered blocks %d and %d (%s)", h[:10], prev, b.height, ctx)
 			}
 			c.txHeight[h] = b.height
 		}
